@@ -349,6 +349,8 @@ func (mab *memoryAddrBook) ConsumePeerRecord(recordEnvelope *record.Envelope, tt
 	mab.mu.Lock()
 	defer mab.mu.Unlock()
 
+	mab.purgeExpiredAddrsUnlocked(rec.PeerID)
+
 	// ensure seq is greater than or equal to the last received
 	lastState, found := mab.signedPeerRecords[rec.PeerID]
 	if found && lastState.Seq > rec.Seq {
@@ -411,6 +413,22 @@ func prevSignedAddrs(s *peerRecordState) []ma.Multiaddr {
 	return pr.Addrs
 }
 
+// purgeExpiredAddrsUnlocked drops p's addrs that have expired but were not
+// collected yet (gc only runs periodically), and with the last one the signed
+// peer record. It is called before p's entry is modified so that leftovers
+// cannot influence the result: an expired addr must not be revived by
+// UpdateAddrs or lend its old TTL to a re-added addr, and an outdated signed
+// peer record must not become visible again when a new addr is added.
+func (mab *memoryAddrBook) purgeExpiredAddrsUnlocked(p peer.ID) {
+	now := mab.clock.Now()
+	for _, a := range mab.addrs.Addrs[p] {
+		if a.ExpiredBy(now) {
+			mab.addrs.Delete(a)
+		}
+	}
+	mab.maybeDeleteSignedPeerRecordUnlocked(p)
+}
+
 func (mab *memoryAddrBook) maybeDeleteSignedPeerRecordUnlocked(p peer.ID) {
 	if len(mab.addrs.Addrs[p]) == 0 {
 		delete(mab.signedPeerRecords, p)
@@ -458,6 +476,7 @@ func (mab *memoryAddrBook) addAddrs(p peer.ID, addrs []ma.Multiaddr, ttl time.Du
 	mab.mu.Lock()
 	defer mab.mu.Unlock()
 
+	mab.purgeExpiredAddrsUnlocked(p)
 	mab.addAddrsUnlocked(p, addrs, ttl)
 }
 
@@ -530,6 +549,7 @@ func (mab *memoryAddrBook) SetAddrs(p peer.ID, addrs []ma.Multiaddr, ttl time.Du
 	mab.mu.Lock()
 	defer mab.mu.Unlock()
 
+	mab.purgeExpiredAddrsUnlocked(p)
 	defer mab.maybeDeleteSignedPeerRecordUnlocked(p)
 
 	exp := mab.clock.Now().Add(ttl)
@@ -584,6 +604,7 @@ func (mab *memoryAddrBook) UpdateAddrs(p peer.ID, oldTTL time.Duration, newTTL t
 	mab.mu.Lock()
 	defer mab.mu.Unlock()
 
+	mab.purgeExpiredAddrsUnlocked(p)
 	defer mab.maybeDeleteSignedPeerRecordUnlocked(p)
 
 	exp := mab.clock.Now().Add(newTTL)
